@@ -159,10 +159,10 @@ class Prog:
                 if form == 'stmt':
                     stmt = "measure %s;" % self.ref(h, el)
                 elif form == 'expr':
-                    nbit[0] += 1
                     if rng.random() < 0.4:
-                        stmt = "echo(measure %s);" % self.ref(h, el)      # the measurement is the echo argument
+                        stmt = "echo(measure %s);" % self.ref(h, el)      # the measurement is the echo argument (no bit variable)
                     else:
+                        nbit[0] += 1
                         stmt = "bit b%d = measure %s; echo(b%d);" % (nbit[0], self.ref(h, el), nbit[0])
                 else:
                     helper("g_m", "@quantum function g_m(qubit a) -> bit { bit r = measure a; return r; }")
